@@ -1,33 +1,36 @@
 #!/bin/bash
 # Confirm an independently written property-breaking change in its scratch worktree and import it into /verif/seeded/<name>/
 # usage: tools_import_seed.sh <worktree> <property> <name>
+# patch.diff is the source of truth; no `git stash` (the stash is shared by all worktrees of a repository).
 set -u
 W=$1; P=$2; NAME=$3
 cd "$W" || exit 1
-git diff -- btc_hd_wallet > /tmp/_cur.diff
-if ! diff -q /tmp/_cur.diff patch.diff >/dev/null; then echo "NOTE: patch.diff differs from working tree diff; using working tree diff"; cp /tmp/_cur.diff patch.diff; fi
 [ -s patch.diff ] || { echo "empty patch"; exit 1; }
+cp patch.diff /tmp/_seed_patch.diff
+git checkout -q -- btc_hd_wallet tests 2>/dev/null
+git apply --check /tmp/_seed_patch.diff && echo "patch applies cleanly on clean tree"; APPLY=$?
+echo "== files touched: $(grep '^+++ ' /tmp/_seed_patch.diff | tr '\n' ' ')"
+echo "== demo without change"
+PYTHONPATH=$W PYTHONDONTWRITEBYTECODE=1 timeout 1200 /venv/bin/python demo.py > /tmp/_demo_without.txt 2>&1; RC_WITHOUT=$?; tail -2 /tmp/_demo_without.txt; echo "exit=$RC_WITHOUT"
+git apply /tmp/_seed_patch.diff || { echo "apply failed"; exit 1; }
 echo "== suite with change"
 SUITE=$(PYTHONPATH=$W PYTHONDONTWRITEBYTECODE=1 /venv/bin/python -m pytest -q -p no:cacheprovider tests 2>&1 | tail -1); echo "$SUITE"
 echo "== demo with change"
-PYTHONPATH=$W PYTHONDONTWRITEBYTECODE=1 timeout 900 /venv/bin/python demo.py > /tmp/_demo_with.txt 2>&1; RC_WITH=$?; tail -3 /tmp/_demo_with.txt; echo "exit=$RC_WITH"
-git stash -q -- btc_hd_wallet
-echo "== demo without change"
-PYTHONPATH=$W PYTHONDONTWRITEBYTECODE=1 timeout 900 /venv/bin/python demo.py > /tmp/_demo_without.txt 2>&1; RC_WITHOUT=$?; tail -2 /tmp/_demo_without.txt; echo "exit=$RC_WITHOUT"
-git apply --check patch.diff && echo "patch applies cleanly on clean tree"; APPLY=$?
-git stash pop -q
+PYTHONPATH=$W PYTHONDONTWRITEBYTECODE=1 timeout 1200 /venv/bin/python demo.py > /tmp/_demo_with.txt 2>&1; RC_WITH=$?; tail -3 /tmp/_demo_with.txt; echo "exit=$RC_WITH"
 D=/verif/seeded/$NAME; mkdir -p $D
-cp patch.diff $D/patch.diff; cp demo.py $D/demo.py; [ -f NOTES.md ] && cp NOTES.md $D/NOTES.md
+cp /tmp/_seed_patch.diff $D/patch.diff; cp demo.py $D/demo.py; [ -f NOTES.md ] && cp NOTES.md $D/NOTES.md
 python3 - "$D" "$P" "$SUITE" "$RC_WITH" "$RC_WITHOUT" "$APPLY" <<'PY'
-import json, sys
+import json, sys, os
 d, prop, suite, rcw, rcwo, apply = sys.argv[1:]
-notes = open(d + "/NOTES.md").read() if __import__("os").path.exists(d + "/NOTES.md") else ""
+notes = open(d + "/NOTES.md").read() if os.path.exists(d + "/NOTES.md") else ""
+ok = int(rcw) != 0 and int(rcwo) == 0 and "124 passed" in suite
 json.dump({"property": prop, "origin": "written by an independent sub-agent given only the property text and a scratch worktree of /repo",
            "needs_to_manifest": notes[:1500],
            "confirmed": {"suite_with_change": suite, "demo_exit_with_change": int(rcw), "demo_exit_without_change": int(rcwo),
                          "patch_applies_on_clean_tree": apply == "0",
-                         "commands": ["cd <worktree> && PYTHONPATH=<worktree> /venv/bin/python -m pytest -q -p no:cacheprovider tests",
-                                      "PYTHONPATH=<worktree> /venv/bin/python demo.py  (with the change, and after git stash)"]},
+                         "commands": ["git checkout -- btc_hd_wallet; PYTHONPATH=<worktree> /venv/bin/python demo.py   (must exit 0)",
+                                      "git apply patch.diff; cd <worktree> && PYTHONPATH=<worktree> /venv/bin/python -m pytest -q -p no:cacheprovider tests   (124 passed + the known root-only failure)",
+                                      "PYTHONPATH=<worktree> /venv/bin/python demo.py   (must exit non-zero)"]},
            "caught_by": [prop]}, open(d + "/meta.json", "w"), indent=1)
-print("imported", d, "OK" if (int(rcw) != 0 and int(rcwo) == 0 and "124 passed" in suite) else "NOT-CONFIRMED")
+print("imported", d, "OK" if ok else "NOT-CONFIRMED")
 PY
